@@ -139,6 +139,11 @@ pub mod shrink {
             a.plan.reuse_vm = false;
             out.push(a);
         }
+        if sc.base_nonzero {
+            let mut a = sc.clone();
+            a.base_nonzero = false;
+            out.push(a);
+        }
         if !sc.plan.plain.is_empty() {
             let mut a = sc.clone();
             a.plan.plain.clear();
